@@ -860,3 +860,18 @@ K("dt.level4_report", ["C04", "C05"], DT, "dt.rs", "level4_report_contract", "K-
   mutant=dict(file=DT, old="                if let Err(e) = self.is_valid() {\n                    return Err(TriangulationValidationReport {\n                        violations: vec![InvariantViolation {",
               new="                if let Err(e) = self.is_valid() && false {\n                    return Err(TriangulationValidationReport {\n                        violations: vec![InvariantViolation {",
               desc="a Delaunay violation is not reported when the lower levels are clean"))
+
+# ======================================================================================
+# Units that are written and attached on demand (`--unit ID`) but NOT part of any registered
+# command: they do not finish within 45 min here (or were never seen to finish).
+# They are listed in DESIGN.md 8.4 with what was observed.
+# ======================================================================================
+_MANUAL = {"construct.retry_gate", "tri.fan_tail", "tri.validation_report", "dt.level4_report", "order.seed", "facet_key.order_free", "dedup.n4",
+           "tds.remove_cells_bump.k0", "tds.remove_cells_bump.k1", "tds.remove_cells_bump.k2",
+           "tri.adjacent_cells.n2_nohint", "tri.adjacent_cells.n2_hint", "tri.adjacent_cells.n0_absent",
+           "hull.stale.is_point_outside", "hull.stale.find_visible", "hull.stale.find_nearest", "hull.stale.facet_visible",
+           "hull.stale_fast.is_point_outside", "hull.stale_fast.find_nearest", "builder.canonicalize_vertices"}
+for _u in UNITS:
+    if _u["id"] in _MANUAL:
+        _u["tier"] = "manual"
+        _u.pop("tier_for", None)
